@@ -343,7 +343,20 @@ func derefCycleCase(linkPath, target string) *PCase {
 	}}
 }
 
+// the source argument is not a directory: missing, a regular file, a dangling link, a fifo
+func oddSourceCase(src string) *PCase {
+	return &PCase{Src: src, Deref: false, Ignore: true, Nodes: []PNode{
+		{Path: "p", Kind: "d", Perm: 0755, Mtime: 1300000000e9},
+		{Path: "p/src", Kind: "d", Perm: 0755, Mtime: 1300000001e9},
+		{Path: "p/src/main.tf", Kind: "f", Perm: 0644, Mtime: 1300000010e9, Data: "m"},
+		{Path: "p/plain", Kind: "f", Perm: 0644, Mtime: 1300000010e9, Data: "plain"},
+		{Path: "p/dangling", Kind: "l", Data: "nowhere"},
+		{Path: "p/pipe", Kind: "s"},
+	}}
+}
+
 var packCorpus = []*PCase{symlinkedComponentCase("BB", true), symlinkedComponentCase("B", true), symlinkedComponentCase("BB", false),
+	oddSourceCase("@ARENA@/p/missing"), oddSourceCase("@ARENA@/p/plain"), oddSourceCase("@ARENA@/p/dangling"), oddSourceCase("@ARENA@/p/pipe"), oddSourceCase("@ARENA@/p/plain/"),
 	derefRuleCase("l/inner\n"), derefRuleCase("inner\n"), derefRuleCase("l/sub/\n"), derefRuleCase("/l/*\n!/l/other\n"), derefRuleCase("l/\n!l/sub/deep\n"),
 }
 
